@@ -258,9 +258,9 @@ Section LoginBackend.
     unfold login_effect in He. cbn [r_view r_b r_cond r_why r_bye r_path r_lines] in He.
     unfold finish. cbn [r_view r_b r_cond r_why r_bye r_path r_lines].
     destruct He as [[Hu Hm] | (Hp & Hmm & authc & secret & authz & Hk & Hv & Hs & Hm & Hc & Hb & Hpt)].
-    - left. unfold kept, c_phase, c_mechs.
-      destruct pth; [destruct cd|]; repeat break_match; cbn; auto.
-    - right. subst cd bye pth. cbn. unfold logged_in, c_phase, c_mechs. cbn.
+    - destruct pth; [destruct cd|]; repeat break_match;
+        left; unfold kept, c_phase, c_mechs; cbn; auto.
+    - subst cd bye pth. cbn. right. unfold logged_in, c_phase, c_mechs. cbn.
       repeat split; auto. exists authc, secret, authz. auto.
   Qed.
 
@@ -296,12 +296,29 @@ Section LoginBackend.
     - right. apply IH. discriminate.
   Qed.
 
+  Lemma closed_final p c : c_phase c = Closed ->
+    session_user (c_phase (last (states c tt p) c)) = None.
+  Proof.
+    intros Hc. destruct p as [|k p]; [cbn; rewrite Hc; reflexivity|].
+    assert (Hin : In (last (states c tt (k :: p)) c) (states c tt (k :: p))).
+    { apply last_in. cbn [states_from]. destruct (step c tt k) as [[? []] ?]. discriminate. }
+    rewrite (closed_forever _ _ Hc _ Hin). reflexivity.
+  Qed.
+
+  Lemma last_default {A} (l : list A) d d' : l <> [] -> last l d = last l d'.
+  Proof.
+    induction l as [|x l IH]; [congruence|]. intros _.
+    destruct l as [|y l]; [reflexivity|].
+    change (last (x :: y :: l) d) with (last (y :: l) d).
+    change (last (x :: y :: l) d') with (last (y :: l) d').
+    apply IH. discriminate.
+  Qed.
+
   Lemma last_cons {A} (x : A) l d : last (x :: l) d = last l x.
   Proof.
-    revert x d. induction l as [|y l IH]; intros x d; [reflexivity|].
-    change (last (x :: y :: l) d) with (last (y :: l) d). rewrite IH.
-    change (last (y :: l) x) with (match l with [] => y | _ => last l x end).
-    destruct l; [reflexivity|]. cbn. destruct l; reflexivity.
+    destruct l as [|y l]; [reflexivity|].
+    change (last (x :: y :: l) d) with (last (y :: l) d).
+    apply last_default. discriminate.
   Qed.
 
   (* once authenticated as u the connection is u until it closes *)
@@ -349,14 +366,14 @@ Section LoginBackend.
         destruct (IH c1 u Hn1 Hl) as (i & k' & a & s & Hnth & Hc & Hvv & Hbefore & Hafter).
         exists (S i), k', a, s. repeat split; auto.
         * intros j cj Hj Hnj. destruct j; cbn in Hnj; [inversion Hnj; subst; exact Hn1|].
-          eapply Hbefore; eauto. lia.
-        * intros j cj Hj Hnj. destruct j; [lia|]. cbn in Hnj. eapply Hafter; eauto. lia.
+          apply (Hbefore j cj); [lia|exact Hnj].
+        * intros j cj Hj Hnj. destruct j; [lia|]. cbn in Hnj. apply (Hafter j cj); [lia|exact Hnj].
       + assert (Hn1 : session_user (c_phase c1) = None) by congruence.
         destruct (IH c1 u Hn1 Hl) as (i & k' & a & s & Hnth & Hc & Hvv & Hbefore & Hafter).
         exists (S i), k', a, s. repeat split; auto.
         * intros j cj Hj Hnj. destruct j; cbn in Hnj; [inversion Hnj; subst; exact Hn1|].
-          eapply Hbefore; eauto. lia.
-        * intros j cj Hj Hnj. destruct j; [lia|]. cbn in Hnj. eapply Hafter; eauto. lia.
+          apply (Hbefore j cj); [lia|exact Hnj].
+        * intros j cj Hj Hnj. destruct j; [lia|]. cbn in Hnj. apply (Hafter j cj); [lia|exact Hnj].
       + destruct (identity_stable p c1 authz Hs u Hl) as [-> Hall].
         exists 0%nat, k, authc, secret. repeat split; auto.
         * intros j cj Hj. lia.
@@ -402,8 +419,115 @@ Section LoginBackend.
       + destruct Hin as [<-|Hin]; [congruence|].
         rewrite (closed_forever p c1 Hcl cj Hin). reflexivity.
       + destruct Hin as [<-|Hin]; [congruence|].
-        eapply IH; eauto; congruence.
+        apply (IH c1); [congruence|congruence|exact Hp'|exact Hin].
       + exfalso. exact (Hk a Ha).
   Qed.
 
 End LoginBackend.
+
+(* ================================================================== *)
+(* Instances for the generated table and the greeting.                  *)
+(* ================================================================== *)
+Section Final.
+  Variable verify_secret : bytes -> bytes -> bool.
+  Variable prep_ok : bytes -> bool.
+  Variable kind : backend_kind.
+  Variable db : userdb.
+  Variable cfg : config.
+
+  Notation bk := (login_bk verify_secret prep_ok kind db).
+  Notation valid := (valid_creds verify_secret prep_ok kind db).
+  Notation states := (states_from unit bk cmd_table cfg).
+  Notation c0 := (fst (fst (conn_init unit bk cfg tt))).
+
+  Lemma init_no_preauth : cf_preauth cfg = None ->
+    c_phase c0 = NotAuth /\ c_mechs c0 = (negb (cf_tls cfg) || cf_local cfg).
+  Proof. intros H. unfold conn_init. rewrite H. split; reflexivity. Qed.
+
+  Lemma imap_sound (p : list cmd) (u : bytes) :
+    cf_preauth cfg = None ->
+    session_user (c_phase (last (states c0 tt p) c0)) = Some u ->
+    exists i k authc secret,
+      nth_error p i = Some k /\ creds_of k = Some (authc, secret, u) /\
+      valid authc secret u /\
+      (forall j cj, (j < i)%nat -> nth_error (states c0 tt p) j = Some cj ->
+                    session_user (c_phase cj) = None) /\
+      (forall j cj, (i <= j)%nat -> nth_error (states c0 tt p) j = Some cj ->
+                    session_user (c_phase cj) = Some u).
+  Proof.
+    intros Hp. destruct (init_no_preauth Hp) as [Hph _].
+    apply sound_from; [exact cmd_table_auth_ok|]. rewrite Hph. reflexivity.
+  Qed.
+
+  Lemma imap_preauth_sound (p : list cmd) (u authc secret authz : bytes) :
+    cf_preauth cfg = Some (authc, secret, authz) ->
+    session_user (c_phase (last (states c0 tt p) c0)) = Some u ->
+    u = authz /\ valid authc secret authz /\
+    forall cj, In cj (states c0 tt p) -> session_user (c_phase cj) = Some u.
+  Proof.
+    intros Hp. unfold conn_init. rewrite Hp.
+    destruct (do_login_calls unit bk tt authc secret authz) as [[u'|a] b'] eqn:E.
+    - destruct (login_calls_valid _ _ _ _ _ _ _ _ _ E) as [-> Hv]. cbn [fst].
+      intros Hl.
+      destruct (identity_stable verify_secret prep_ok kind db cmd_table cfg cmd_table_auth_ok p
+                  (mk_conn (set_phase (mk_view NotAuth (negb (cf_tls cfg)) (cf_tls cfg) 0) (Authd authz)) 0)
+                  authz eq_refl u Hl) as [-> Hall].
+      auto.
+    - intros Hl. exfalso.
+      destruct a; cbn [fst] in Hl;
+        rewrite (closed_final verify_secret prep_ok kind db cmd_table cfg) in Hl
+          by reflexivity; discriminate.
+  Qed.
+
+  Lemma imap_failed_leaves_unauth (c : conn) (k : cmd) :
+    session_user (c_phase c) = None ->
+    (forall authc secret authz, creds_of k = Some (authc, secret, authz) ->
+                                ~ valid authc secret authz) ->
+    session_user (c_phase (fst (fst (conn_step unit bk cmd_table cfg c tt k)))) = None.
+  Proof. apply failed_step. exact cmd_table_auth_ok. Qed.
+
+  (* a remote peer on a TLS-enabled listener that never issues STARTTLS is
+     never authenticated, whatever it sends *)
+  Lemma imap_no_tls_no_auth (p : list cmd) :
+    cf_preauth cfg = None -> cf_tls cfg = true -> cf_local cfg = false ->
+    Forall not_starttls p ->
+    forall cj, In cj (states c0 tt p) -> session_user (c_phase cj) = None.
+  Proof.
+    intros Hp Ht Hl. destruct (init_no_preauth Hp) as [Hph Hm].
+    apply no_mechs_no_auth; [exact cmd_table_auth_ok| |].
+    - rewrite Hph. reflexivity.
+    - rewrite Hm, Ht, Hl. reflexivity.
+  Qed.
+End Final.
+
+(* LOGIN while LOGINDISABLED is advertised: refused with NO, nothing is
+   called, nothing changes — for any backend *)
+Lemma login_disabled_step :
+  forall (B : Type) (bk : B -> bcall -> answer * B) (cfg : config) (c : conn) (b : B) (u p : bytes),
+    c_phase c = NotAuth -> c_mechs c = false ->
+    conn_step B bk cmd_table cfg c b (CCmd "LOGIN" (ALogin u p)) =
+    (c, b, mk_out NO WCannot false 0).
+Proof.
+  intros B bk cfg c b u p Hph Hm. unfold conn_step. rewrite Hph.
+  unfold dispatch.
+  change (lookup_entry "LOGIN" cmd_table) with
+    (Some (mk_entry "LOGIN" true false false false false "LOGIN" true false true)).
+  cbn [ce_compound ce_gated]. unfold gate. unfold c_phase in Hph. rewrite Hph.
+  cbn [has_session has_selected ce_nonauth ce_auth ce_select negb andb].
+  unfold exec. cbn [ce_has_handler negb ce_handler].
+  change (is_auth_handler "LOGIN") with true. cbn iota.
+  unfold exec_auth. change ("LOGIN" =? "LOGIN") with true. cbn iota.
+  unfold cap_logindisabled. rewrite Hph. unfold c_mechs in Hm. rewrite Hm.
+  cbn. destruct c as [v bad]. reflexivity.
+Qed.
+
+(* LOGINDISABLED is advertised exactly when no mechanism is offered to an
+   unauthenticated connection; that is the state of a remote peer before TLS *)
+Lemma logindisabled_remote :
+  forall (B : Type) (bk : B -> bcall -> answer * B) (cfg : config) (b : B),
+    cf_preauth cfg = None -> cf_tls cfg = true -> cf_local cfg = false ->
+    let c := fst (fst (conn_init B bk cfg b)) in
+    c_phase c = NotAuth /\ c_mechs c = false /\ cap_logindisabled (c_view c) = true.
+Proof.
+  intros B bk cfg b Hp Ht Hl. unfold conn_init. rewrite Hp, Ht, Hl. cbn. auto.
+Qed.
